@@ -944,7 +944,7 @@ func runC05(c *lib.Ctx) {
 		}
 		if op.name == "isqrt" {
 			// perfect squares and their neighbours around the float64 and fixnum precision limits
-			for _, k := range []string{"94906265", "94906266", "2147483648", "3037000499", "3037000500", "4294967296", "4294967297", "18446744073709551616", "1000000000000000000000000000001"} {
+			for _, k := range []string{"67108864", "67108865", "70000001", "82000001", "90000001", "94906264", "94906265", "94906266", "2147483648", "3037000499", "3037000500", "4294967296", "4294967297", "18446744073709551616", "1000000000000000000000000000001"} {
 				kk := c05Int(k).rat.Num()
 				sq := new(big.Int).Mul(kk, kk)
 				for _, d := range []int64{-1, 0, 1} {
